@@ -28,6 +28,12 @@ CHECKS = {
  "C17": (True, FE, "complete enumeration of the CLI configuration x failure-stage matrix, one real process run per row",
          "The real zeep binary (rebuilt from /repo/zeep) is run for the complete product of 9 input outcomes (3 succeeding; failing at: missing input, non-UTF-8 sibling, malformed XML, unresolved import, unresolved reference, unsupported binding) x 5 path spellings x explicit/default output path x pre-existing output {absent, shorter, longer with a sentinel tail} = 270 rows; success rows must exit 0 with exactly the library's bytes, failure rows must exit non-zero and leave the pre-existing output byte-for-byte unchanged.",
          "Failure stages are those reachable through file contents and paths; a failure while writing the output file itself (disk full) is not injected at the CLI level (C15 covers the writer).", "4/C17"),
+ "C02": (True, MC, "breadth-first exploration of member and component productions on the real generator, syn item model compared with an independent reference API model",
+         "From the two-file seed every single member production (element x 32 types x 6 occurrences x {sequence, nested+sibling, choice}; sequence occurrence x 32 types; attribute x 29 simple types x use; ref x 5 global-element kinds x 6 occurrences) and 10 component productions is applied (854 states; thorough: all admissible ordered pairs over a reduced alphabet, about 3 k states), the real generator is run and the syn-extracted item model must equal the reference API model: one public PascalCase struct per component in the module of its namespace, exactly the declared members in order, wrapper T/Option/Vec, element type = documented primitive or the struct of the named type (through aliases), legal distinct snake_case fields, nothing extra.",
+         "The reference model is hand-written from the XSD rules restricted to DESIGN section 2. Depth-2 states behind a violating depth-1 prefix are pruned (counted in the evidence). One open known finding (particles after a nested sequence are dropped).", "4/C02"),
+ "C08": (True, MC, "exhaustive enumeration of extension chains/fans over two files on the real generator, syn item model compared with the reference member lists",
+         "All extension chains of depth 1 (files x declaration order x 5x5 own contents, with fan-out and a forward-lookup decoy) and depth 2 (thorough: depth 4) are generated; each derived struct's member list must equal base members (recursively) then own elements then own attributes, and every element member's prefix must be bound, in the struct's own namespaces map, to the namespace of the schema that declared it.",
+         "Contents beyond depth 1 are restricted to three kinds; one open known finding (types of a file imported cyclically whose base lives in the importer are dropped).", "4/C08"),
 }
 
 NOT_YET = {
